@@ -105,6 +105,10 @@ def run_log(case):
             return out
         dev = env.device
         link = env.world.links[0]
+        if case.get('prefix_after_connect') is not None:
+            # systematic single preemptions: the k-th scheduling decision from here on goes to another thread
+            s.prefix = list(case['prefix_after_connect'])
+            s.ci = 0
         lc, expected, size, all_known, has_mem = _build_config(case, spec)
         period = case['period_ms']
         must_accept = all_known and size <= 26 and 10 <= period <= 2540
@@ -204,7 +208,7 @@ def run_log(case):
                             vals['%s.%s' % (te['group'], te['name'])] = _ref_decode(tb & 0xf, chunk)
                         ts = step.get('ts', ts_counter[0]) & 0xFFFFFF
                         ts_counter[0] += 1 + step['seed'] * 1000
-                        link.deliver((5, 2, bytes([bid, ts & 0xff, (ts >> 8) & 0xff, (ts >> 16) & 0xff]) + body), delay=0.0005)
+                        link.deliver((5, 2, bytes([bid, ts & 0xff, (ts >> 8) & 0xff, (ts >> 16) & 0xff]) + body))      # link latency, in order with the acknowledgements
                         delivered.append((ts, vals))
                 s.sleep(step.get('gap', 0.2))
             s.sleep(1.0)
@@ -444,9 +448,23 @@ def directed_cases(tier):
     yield dict(base, vars=[{'kind': 'toc', 'idx': i, 'fetch': [None, 8, 7, 1][i % 4]} for i in range(5)], history=hist2)
 
 
+def single_preemption_cases(tier):
+    """acknowledgements without latency; one forced thread switch at the k-th scheduling decision of a fixed history"""
+    base = {'version': 10, 'toc_types': [7, 1, 2, 3, 4, 5, 6, 8, 7, 1] * 3, 'period_ms': 100, 'ts0': 5, 'readd': False, 'delays': [0.0],
+            'schedule': {'prefix': [], 'seed': 0, 'rate': 0.0}}
+    hist = [{'op': 'start', 'gap': 0.0}, {'op': 'emit', 'seed': 3, 'extreme': False, 'gap': 0.0}, {'op': 'stop', 'gap': 0.0}, {'op': 'start', 'gap': 0.0},
+            {'op': 'emit', 'seed': 4, 'extreme': False, 'gap': 0.0}, {'op': 'delete', 'gap': 0.0}, {'op': 'add', 'gap': 0.0}, {'op': 'start', 'gap': 0.0},
+            {'op': 'emit', 'seed': 5, 'extreme': False, 'gap': 0.2}]
+    for nvars in (3, 20):
+        for k in range(0, 50 if tier == 'quick' else 160):
+            for other in (1, 2):
+                yield dict(base, vars=[{'kind': 'toc', 'idx': i, 'fetch': 1} for i in range(nvars)], history=hist, prefix_after_connect=[0] * k + [other])
+
+
 def subchecks(tier):
     return [
         Sub('directed', run_log, cases=directed_cases, distinct_by_construction=True),
+        Sub('single-preemptions', run_log, cases=single_preemption_cases, distinct_by_construction=True),
         Sub('configs', run_log, strategy=log_case(), examples={'quick': 900, 'thorough': 30000}),
         Sub('synclogger', run_sync, strategy=sync_case, examples={'quick': 80, 'thorough': 3000}),
     ]
